@@ -1284,6 +1284,14 @@ type multiAckNacker struct {
 	// released in order, released..len(positions), never out of order
 	// (invariant 4).
 	released int
+
+	// failed stores the error of the first failed call to the parent. Once a
+	// parent Ack/Nack failed it must not be repeated by the next vote of a
+	// sibling branch (branches keep running until their pass is done): a nack
+	// whose DLQ write failed would be written again and acked, a nack whose
+	// source ack failed would be written to the DLQ twice. Nothing is released
+	// anymore, same as SourceAckerNode.fail in the default engine.
+	failed error
 }
 
 // newMultiAckNacker creates a multiAckNacker for a fan-out of a batch whose
@@ -1454,6 +1462,9 @@ func (m *multiAckNacker) Nack(ctx context.Context, batch *Batch, taskID string) 
 // exceptional, rare path, so the extra parent calls are an acceptable
 // tradeoff for that correctness.
 func (m *multiAckNacker) releaseLocked(ctx context.Context) error {
+	if m.failed != nil {
+		return cerrors.Errorf("another record failed to be acked/nacked: %w", m.failed)
+	}
 	for m.released < len(m.positions) {
 		if !m.terminal[m.released] {
 			return nil
@@ -1467,6 +1478,7 @@ func (m *multiAckNacker) releaseLocked(ctx context.Context) error {
 			}
 
 			if err := m.parent.Ack(ctx, m.ackBatch(from, to)); err != nil {
+				m.failed = err
 				return err
 			}
 			m.released = to
@@ -1478,6 +1490,7 @@ func (m *multiAckNacker) releaseLocked(ctx context.Context) error {
 			// Requirement 5: a fatal DLQ error (nack threshold exceeded)
 			// must surface exactly like it does on the single-destination
 			// path, so the branch pool errors out and the worker tombs.
+			m.failed = err
 			return err
 		}
 		m.released = idx + 1
